@@ -41,6 +41,8 @@ def render(desc, eager):
             args.append(f"key={NAMES[c['key']]!r}")
         if c.get("frozen"):
             args.append("frozen=True")
+        if c.get("dnc"):
+            args.append("do_not_copy=" + repr([NAMES[n] for n in c["dnc"]]))
         if eager:
             args.append("bootstrap=True")
         out.append(f"@spec_class({', '.join(args)})" if args else "@spec_class")
